@@ -20,7 +20,8 @@ ROLES = {
     "class": ("none", "read", "assign", "assign_noread", "aug", "for", "global_assign", "global_read",
               "nonlocal_assign", "nonlocal_read", "def", "classbind", "import", "assign_read_before",
               "destructure"),
-    "lambda": ("none", "read", "param", "param_default_same", "walrus"),
+    "lambda": ("none", "read", "param", "param_default_same", "walrus", "lam_vararg", "lam_kwarg", "lam_kwonly",
+               "lam_posonly"),
     "comp": ("none", "read", "target", "target_tuple", "walrus", "iter_read", "cond_read"),
 }
 
@@ -157,7 +158,8 @@ def render_expr_scope(node, r):
     i, kind, role, children = node
     x = r.name
     parts = []
-    if role in ("read", "param", "target", "param_default_same", "target_tuple"):
+    if role in ("read", "param", "target", "param_default_same", "target_tuple", "lam_vararg", "lam_kwarg",
+                "lam_kwonly", "lam_posonly"):
         parts.append("L(%d, 'r', %s)" % (i, x))
     if role == "walrus":
         parts.append("L(%d, 'w', (%s := %d))" % (i, x, r.val()))
@@ -178,6 +180,14 @@ def expr_child(ch, r):
             return "(lambda %s: %s)(%d)" % (x, body, r.val())
         if role == "param_default_same":
             return "(lambda %s=%s: %s)()" % (x, x, body)
+        if role == "lam_vararg":
+            return "(lambda *%s: %s)(%d)" % (x, body, r.val())
+        if role == "lam_kwarg":
+            return "(lambda **%s: %s)(k=%d)" % (x, body, r.val())
+        if role == "lam_kwonly":
+            return "(lambda *, %s=%d: %s)()" % (x, r.val(), body)
+        if role == "lam_posonly":
+            return "(lambda %s, /: %s)(%d)" % (x, body, r.val())
         return "(lambda: %s)()" % body
     t = x if role == "target" else ("(%s, u%d)" % (x, i) if role == "target_tuple" else "t%d" % i)
     src = "[%d]" % r.val() if role != "target_tuple" else "[(%d, 0)]" % r.val()
